@@ -503,17 +503,22 @@ class PyFatFS(FS):
         ctime = details.get("created")
         mtime = details.get("modified")
         atime = details.get("accessed")
+        # Convert everything first, timestamps outside of the DOS date
+        # range raise ValueError and must not leave a half-updated dentry
+        new_values = {}
         if ctime:
             ctime = DosDateTime.fromtimestamp(ctime, tz=self.tz)
-            dentry.crttime = ctime.serialize_time()
-            dentry.crtdate = ctime.serialize_date()
+            new_values["crttime"] = ctime.serialize_time()
+            new_values["crtdate"] = ctime.serialize_date()
         if mtime:
             mtime = DosDateTime.fromtimestamp(mtime, tz=self.tz)
-            dentry.wrttime = mtime.serialize_time()
-            dentry.wrtdate = mtime.serialize_date()
+            new_values["wrttime"] = mtime.serialize_time()
+            new_values["wrtdate"] = mtime.serialize_date()
         if atime:
             atime = DosDateTime.fromtimestamp(atime, tz=self.tz)
-            dentry.lstaccessdate = atime.serialize_date()
+            new_values["lstaccessdate"] = atime.serialize_date()
+        for attr, value in new_values.items():
+            setattr(dentry, attr, value)
 
         self.fs.update_directory_entry(dentry.get_parent_dir())
 
